@@ -72,18 +72,37 @@ void register_b()
     run_shape("base_in_product", parser, S_product({S_optional(S_arg("la", "a", vt::int_)), S_option("lb", "o", "opt", vt::string_, std::nullopt)}),
               alpha({"-o", "--opt", "3"}), maxlen());
   }, 120);
-  // parse_help = sum(help switch, parser) parsed to empty; left => usage text
+  // parse_help = sum(help switch, parser) parsed to empty; left => usage text.  Run with the default help switch
+  // (--help only) and with user-built help switches that have a short name or other names.
   vrt::shard("shape/parse_help", [] {
+    struct hs
+    {
+      char const *tag;
+      std::optional<std::string> shortn;
+      std::string longn;
+    };
+    for (hs const &h : {hs{"default", std::nullopt, "help"}, hs{"short_and_long", std::string("h"), "help"}, hs{"other_names", std::string("u"), "usage"}})
+    {
     auto const parser{o::apply(arg<la, int>("a"), sw<lb>("f", "flag"))};
-    shape_ptr const desc = S_sum("label", S_unit_switch("help", std::nullopt, "help"), S_product({S_arg("la", "a", vt::int_), S_switch("lb", "f", "flag")}));
-    static std::string const tag = "options::parse_help";
-    enumerate_vectors(alpha({"--help", "-f", "--flag", "3"}), maxlen(), [&](tokens const &args) {
-      if (!vrt::begin_text(tag.c_str(), "shape parse_help args " + show_tokens(args)))
+    shape_ptr const desc = S_sum("label", S_unit_switch("help", h.shortn, h.longn), S_product({S_arg("la", "a", vt::int_), S_switch("lb", "f", "flag")}));
+    o::help_switch const hswitch = h.shortn ? o::help_switch{o::optional_short_name{o::short_name{fcppt::string{*h.shortn}}}, o::long_name{fcppt::string{h.longn}}}
+                                            : (h.longn == "help" ? o::default_help_switch() : o::help_switch{o::optional_short_name{}, o::long_name{fcppt::string{h.longn}}});
+    static std::string tag;
+    tag = std::string("options::parse_help[") + h.tag + "]";
+    std::vector<std::string> al{"--" + h.longn, "-f", "--flag", "3"};
+    if (h.shortn)
+    {
+      al.push_back("-" + *h.shortn);
+      al.push_back("--" + *h.shortn);
+      al.push_back("-" + h.longn);
+    }
+    enumerate_vectors(alpha_from(al), h.shortn ? std::min(maxlen(), 3) : maxlen(), [&](tokens const &args) {
+      if (!vrt::begin_text(tag.c_str(), std::string("shape parse_help[") + h.tag + "] args " + show_tokens(args)))
         return;
       bool acc = true;
       std::optional<std::string> const want = ref_interp::parse(*desc, args, acc);
       fcppt::args_vector av(args.begin(), args.end());
-      auto const res = o::parse_help(o::default_help_switch(), parser, av);
+      auto const res = o::parse_help(hswitch, parser, av);
       // help_result is a variant of result<record> and help_text
       std::optional<std::string> const got = fcppt::variant::match(
           res,
@@ -101,8 +120,9 @@ void register_b()
       vrt::nontrivial(want.has_value());
       vrt::maybe_sample();
       if (got != want2)
-        vrt::fail("parse_help:differs", "real: " + (got ? *got : std::string("error")) + "  reference: " + (want2 ? *want2 : std::string("error")));
+        vrt::fail(std::string("parse_help:differs:") + h.tag, "real: " + (got ? *got : std::string("error")) + "  reference: " + (want2 ? *want2 : std::string("error")));
     });
+    }
   }, 120);
 }
 }
